@@ -1,7 +1,7 @@
 (* Extraction of the executable model for the correspondence runner.
    Directives: exactly those of ExtrOcamlBasic; N, Z, positive and nat stay
    Coq datatypes. *)
-From KC Require Import Base Filter Cache Lister Watcher Controller.
+From KC Require Import Base Filter Cache Lister Watcher Controller FilterSub Pipeline Monitor.
 Require Import ExtrOcamlBasic.
 Extraction Language OCaml.
 Extraction "model.ml"
@@ -11,4 +11,6 @@ Extraction "model.ml"
   service_pods_filter rc_pods_filter workload_pods_filter ingress_services_filter
   mk_node_filter mk_involved_filter mk_selector_match_filter
   do_sync_raw do_update do_list do_get replay create_entry
-  trace_ok watch_outcome relist_outcome krun kinit.
+  trace_ok watch_outcome relist_outcome krun kinit
+  fs_init fs_step nested_view view
+  expected_suffix monitor_log_ok.
